@@ -4,6 +4,9 @@ From Coq Require Import NArith List Bool.
 From CC Require Import Lib.Words Lib.ListX Spec.Lanes Model.Dispatch Model.Machine.
 From CC Require Import Proofs.Dispatch Proofs.Machine Proofs.MachineModels Proofs.MachineExamples Proofs.MachineBytes Proofs.MachineSse Proofs.DispatchMachine.
 From CC Require Model.ChaChaGuts Model.Blake.
+From CC Require Model.PpvSoft Model.JH.
+From CC Require Proofs.MachineInstSse Proofs.MachineInstAvx2 Proofs.MachineInstGeneric.
+From CC Require Import Proofs.MachineInstReal.
 Import ListNotations.
 Local Open Scope N_scope.
 
@@ -120,7 +123,8 @@ Theorem C03_jh_layer_machine_indep :
     jh_rounds_on (m_u128 m) l sched = jh_rounds_on (m_u128 lane_m) l sched.
 Proof. exact jh_layer_machine_indep. Qed.
 
-(** (c) composed, PARTIAL. The full statement of C03 for the modelled algorithms is
+(** (c) composed, general form (the hypothesis is discharged for the real back ends in (e):
+    [C03_backends_agree]). Historical note on the partial state this file once had: The full statement of C03 for the modelled algorithms is
     [C03_backends_agree_partial] WITHOUT its hypothesis [forall b, machine_refines (inst b)],
     at the six concrete instances [inst Generic = generic_m, inst SSE2 = sse2_m, ...] built from
     the intrinsic-level models of the back ends (Model/PpvGeneric.v, PpvSse.v, PpvAvx2.v). Those
@@ -201,6 +205,88 @@ Proof. exact (conj p2_machine_not_a_refinement p2_machine_differs). Qed.
 Definition C03_examples := (every_backend_reachable, unimplemented_arm_exists, p2_value,
                             chacha_lane_rounds_nontrivial, jh_lane_round_nontrivial, byte_m_is_not_lane_m).
 
+(** (e) the six REAL machines, built from the intrinsic-level models of the x86 back ends
+    (Model/PpvSse.v, PpvAvx2.v; SSE2 = [sse_m false]; SSSE3, SSE4.1, AVX = [sse_m true]; AVX2 = [avx2_m])
+    and from the portable back end (Model/PpvGeneric.v + the soft.rs wrappers; [generic_m p] for
+    either build profile), refine the lane meaning in all four components (u32x4, u32x4x4, u64x4,
+    u128x1/x2) — so [C03_backends_agree_partial] holds with NO hypothesis: [C03_backends_agree].
+    The JH lane meaning is the executable form of Model/JH.v ([C03_jh_lane_is_model]). *)
+Theorem C03_sse_m_refines : forall s3, machine_refines (MachineInstSse.sse_m s3).
+Proof. exact MachineInstSse.sse_m_refines. Qed.
+
+Theorem C03_avx2_m_refines : machine_refines MachineInstAvx2.avx2_m.
+Proof. exact MachineInstAvx2.avx2_m_refines. Qed.
+
+Theorem C03_generic_m_refines : forall p, machine_refines (MachineInstGeneric.generic_m p).
+Proof. exact MachineInstGeneric.generic_m_refines. Qed.
+
+Theorem C03_real_inst_is :
+  forall p,
+    real_inst p Generic = MachineInstGeneric.generic_m p /\
+    real_inst p SSE2 = MachineInstSse.sse_m false /\
+    real_inst p SSSE3 = MachineInstSse.sse_m true /\
+    real_inst p SSE41 = MachineInstSse.sse_m true /\
+    real_inst p AVX = MachineInstSse.sse_m true /\
+    real_inst p AVX2 = MachineInstAvx2.avx2_m.
+Proof. exact real_inst_cases. Qed.
+
+Theorem C03_real_inst_refines : forall p b, machine_refines (real_inst p b).
+Proof. exact real_inst_refines. Qed.
+
+(** the full statement: C03_backends_agree_partial without its hypothesis, at the real machines *)
+Theorem C03_backends_agree :
+  forall (p : PpvSoft.profile) (c1 c2 : config),
+    f_sse2 (cpu_of c1) = true -> f_sse2 (cpu_of c2) = true ->
+    (forall k x, rows_ok 32 4 x ->
+       on (chacha_narrow (real_inst p) k) c1 x = on (chacha_narrow (real_inst p) k) c2 x /\
+       on (chacha_narrow (real_inst p) k) c1 x <> None) /\
+    (forall k x, rows_ok 32 16 x ->
+       on (chacha_wide (real_inst p) k) c1 x = on (chacha_wide (real_inst p) k) c2 x /\
+       on (chacha_wide (real_inst p) k) c1 x <> None) /\
+    (forall mss x, msgs_ok 32 mss -> rows_ok 32 4 x ->
+       on (blake32 (real_inst p) mss) c1 x = on (blake32 (real_inst p) mss) c2 x /\
+       on (blake32 (real_inst p) mss) c1 x <> None) /\
+    (forall mss x, msgs_ok 64 mss -> rows_ok 64 4 x ->
+       on (blake64 (real_inst p) mss) c1 x = on (blake64 (real_inst p) mss) c2 x /\
+       on (blake64 (real_inst p) mss) c1 x <> None) /\
+    (forall sched l, sched_ok sched -> length l = 8%nat -> Forall w128 l ->
+       on (jh (real_inst p) sched) c1 l = on (jh (real_inst p) sched) c2 l /\
+       on (jh (real_inst p) sched) c1 l <> None).
+Proof. exact backends_agree_real. Qed.
+
+Theorem C03_real_backends_are_lane :
+  forall p b,
+    (forall k a bb c d,
+       words_ok 32 4 a -> words_ok 32 4 bb -> words_ok 32 4 c -> words_ok 32 4 d ->
+       chacha_rounds_on (m_u32x4 (real_inst p b)) k a bb c d = chacha_rounds_on (lane_vops 32) k a bb c d) /\
+    (forall k a bb c d,
+       words_ok 32 16 a -> words_ok 32 16 bb -> words_ok 32 16 c -> words_ok 32 16 d ->
+       chacha_rounds_on (m_u32x4x4 (real_inst p b)) k a bb c d = chacha_rounds_on (lane_vops 32) k a bb c d) /\
+    (forall xs mss, rows_ok 32 4 xs -> msgs_ok 32 mss ->
+       blake32_rounds_on (m_u32x4 (real_inst p b)) xs mss = blake32_rounds_on (lane_vops 32) xs mss) /\
+    (forall xs mss, rows_ok 64 4 xs -> msgs_ok 64 mss ->
+       blake64_rounds_on (m_u64x4 (real_inst p b)) xs mss = blake64_rounds_on (lane_vops 64) xs mss) /\
+    (forall l sched, length l = 8%nat -> Forall w128 l -> sched_ok sched ->
+       jh_rounds_on (m_u128 (real_inst p b)) l sched = jh_rounds_on lane_jops l sched).
+Proof. exact real_backends_are_lane. Qed.
+
+Theorem C03_jh_swapk_is_lane_swap : forall k x, (k < 7)%nat -> JH.swapk k x = l_swap k x.
+Proof. exact swapk_is_swapw. Qed.
+
+Theorem C03_jh_lane_is_model :
+  forall l sched,
+    length l = 8%nat -> Forall w128 l -> sched_ok sched ->
+    jh_rounds_on lane_jops l sched =
+    x8_list (fold_left (fun y jr => JH.round (fst jr) (snd jr) y) sched (x8_of_list l)).
+Proof. exact jh_lane_is_model. Qed.
+
+Theorem C03_real_backends_e8_is_model :
+  forall p b l,
+    length l = 8%nat -> Forall w128 l ->
+    jh_rounds_on (m_u128 (real_inst p b)) l e8_sched = x8_list (JH.e8 (x8_of_list l)).
+Proof. exact real_backends_e8_is_model. Qed.
+
+
 Print Assumptions C03_dispatch_total.
 Print Assumptions C03_dispatch_supported.
 Print Assumptions C03_hook_is_cap.
@@ -221,3 +307,13 @@ Print Assumptions C03_byte_m_refines.
 Print Assumptions C03_demo_inst_refines.
 Print Assumptions C03_p2_machine_rejected.
 Print Assumptions C03_examples.
+Print Assumptions C03_sse_m_refines.
+Print Assumptions C03_avx2_m_refines.
+Print Assumptions C03_generic_m_refines.
+Print Assumptions C03_real_inst_is.
+Print Assumptions C03_real_inst_refines.
+Print Assumptions C03_backends_agree.
+Print Assumptions C03_real_backends_are_lane.
+Print Assumptions C03_jh_swapk_is_lane_swap.
+Print Assumptions C03_jh_lane_is_model.
+Print Assumptions C03_real_backends_e8_is_model.
